@@ -310,6 +310,8 @@ class Formula:
     result: str = "R"
     unwrap: str | None = None      # "ceil": the target is `np.ceil(X).astype(int)`; produce X
     hand: str = ""                 # the hand-written term (documentation only)
+    elem: int | None = None        # the target is `np.array([e0, e1, …])`, later normalised in place by
+                                   # `<target> = <target> / np.linalg.norm(<target>)`: produce entry `elem` (un-normalised)
 
 
 def _sched(file, cls, func, extra=None, **kw):
@@ -351,7 +353,25 @@ def _norm_src(func):
                   entry_loops=("(i, (lower, upper)) in enumerate(bounds)",))
 
 
+def _w2d(le90: bool):
+    return Source("vopy/utils/utils.py", None, "get_2d_w", {"cone_degree": ("deg", "R")},
+                  flags={"cone_degree <= 90": le90})
+
+
 SPECS: dict[str, dict] = {
+    "C12": {
+        "imports": ["VOPyVerif.Model.ConeFormulas"],
+        "formulas": [
+            Formula("w1xLe", _w2d(True), "W_1", ("deg",), elem=0, hand="ConeFormulas.get2dW row 1, entry 0 (θ ≤ 90)"),
+            Formula("w1yLe", _w2d(True), "W_1", (), elem=1, hand="ConeFormulas.get2dW row 1, entry 1 (θ ≤ 90)"),
+            Formula("w2xLe", _w2d(True), "W_2", ("deg",), elem=0, hand="ConeFormulas.get2dW row 2, entry 0 (θ ≤ 90)"),
+            Formula("w2yLe", _w2d(True), "W_2", (), elem=1, hand="ConeFormulas.get2dW row 2, entry 1 (θ ≤ 90)"),
+            Formula("w1xGt", _w2d(False), "W_1", ("deg",), elem=0, hand="ConeFormulas.get2dW row 1, entry 0 (θ > 90)"),
+            Formula("w1yGt", _w2d(False), "W_1", (), elem=1, hand="ConeFormulas.get2dW row 1, entry 1 (θ > 90)"),
+            Formula("w2xGt", _w2d(False), "W_2", ("deg",), elem=0, hand="ConeFormulas.get2dW row 2, entry 0 (θ > 90)"),
+            Formula("w2yGt", _w2d(False), "W_2", (), elem=1, hand="ConeFormulas.get2dW row 2, entry 1 (θ > 90)"),
+        ],
+    },
     "C20": {
         "imports": ["VOPyVerif.Model.Problem"],
         "formulas": [
@@ -660,6 +680,28 @@ def find_function(tree, cls, func):
     return fs[0]
 
 
+def _array_entry(ex, th, target: str, k: int):
+    """entry `k` of a row built as `np.array([...])` and then normalised in place — the normalisation statement is
+    pinned (`<t> = <t> / np.linalg.norm(<t>)`), the entry returned is the un-normalised one"""
+    if not isinstance(th, Thunk) or th.node is None:
+        raise Untranslatable(f"'{target}' is not bound by a plain assignment")
+    node, env = th.node, th.env
+    if ast.unparse(node) != f"{target} / np.linalg.norm({target})":
+        raise Untranslatable(f"'{target}' is no longer normalised by '{target} / np.linalg.norm({target})' "
+                             f"(last assignment: '{ast.unparse(node)[:60]}')")
+    prev = env.get(target)
+    if not isinstance(prev, Thunk) or prev.node is None:
+        raise Untranslatable(f"'{target}' has no assignment before its normalisation")
+    node, env = prev.node, prev.env
+    if not (isinstance(node, ast.Call) and ast.unparse(node.func) == "np.array" and len(node.args) == 1
+            and not node.keywords and isinstance(node.args[0], (ast.List, ast.Tuple))):
+        raise Untranslatable(f"'{target}' is no longer built as np.array([...]): '{ast.unparse(node)[:60]}'")
+    elts = node.args[0].elts
+    if len(elts) != 2:
+        raise Untranslatable(f"'{target}' has {len(elts)} entries, the tie was made for 2")
+    return ex.expr(elts[k], env)
+
+
 def translate_formula(fm: Formula, repo: Path):
     """-> (lean definition text, term text)"""
     src = fm.source
@@ -679,7 +721,10 @@ def translate_formula(fm: Formula, repo: Path):
     else:
         if fm.target not in env:
             raise Untranslatable(f"no assignment to '{fm.target}' on the path")
-        ir = ex.force(env[fm.target])
+        if fm.elem is not None:
+            ir = _array_entry(ex, env[fm.target], fm.target, fm.elem)
+        else:
+            ir = ex.force(env[fm.target])
     if fm.unwrap == "ceil":
         if not (isinstance(ir, App) and ir.fn == "Naive.CeilNat.ceilNat"):
             raise Untranslatable(f"'{fm.target}' is no longer np.ceil(…).astype(int)")
